@@ -1147,6 +1147,9 @@ func (sp *SymPath) Feasible() bool {
 			if strings.HasPrefix(c.Other, "branch:") {
 				continue
 			}
+			if c.Other == "!true" || c.Other == "false" {
+				return false // a known boolean taken the other way
+			}
 			if strings.HasPrefix(c.Other, "!") {
 				neg[c.Other[1:]] = true
 			} else {
